@@ -641,11 +641,23 @@ func (st *Stack) compactRange(first, last int, expiration *LogExpirationConfig) 
 		return false, err
 	}
 
-	lockFileName = st.listFile + ".lock"
-	lockFile, err = os.OpenFile(lockFileName, os.O_EXCL|os.O_CREATE|os.O_WRONLY, 0644)
+	// The merged table is removed again unless it is renamed into place.
+	defer func() {
+		if tmpTable != "" {
+			os.Remove(tmpTable)
+		}
+	}()
+
+	lockFile, err = os.OpenFile(st.listFile+".lock", os.O_EXCL|os.O_CREATE|os.O_WRONLY, 0644)
+	if os.IsExist(err) {
+		// Somebody else holds the lock: it is not ours to remove,
+		// and losing the race is not an error.
+		return false, nil
+	}
 	if err != nil {
 		return false, err
 	}
+	lockFileName = st.listFile + ".lock"
 
 	defer lockFile.Close()
 
@@ -660,6 +672,7 @@ func (st *Stack) compactRange(first, last int, expiration *LogExpirationConfig) 
 		if err := os.Rename(tmpTable, destTable); err != nil {
 			return false, err
 		}
+		tmpTable = ""
 	}
 
 	var names []string
